@@ -154,6 +154,7 @@ Proof.
   - unfold unm_pattern in H. crush H; reflexivity.
   - unfold unm_none in H. crush H; reflexivity.
   - apply unm_literal_shape in H. destruct y; exact H.
+  - destruct y; reflexivity.
 Qed.
 
 (* ---- the isinstance short-circuit ---- *)
@@ -183,6 +184,7 @@ Proof.
   - destruct x; try discriminate Hs. reflexivity.
   - destruct x; try discriminate Hs. reflexivity.
   - unfold unm_literal. rewrite Hs. reflexivity.
+  - reflexivity.
 Qed.
 
 (* with "E(v) is a member of E": whatever a routine returns is an instance *)
@@ -312,7 +314,8 @@ Lemma round_nonfold strict k x w : in_kind rt ev strict k x = true -> k <> LDate
   mar_of rt ev k x = Ok w -> unm_of rt k w = Ok x.
 Proof.
   unfold in_kind. intros Hin Hk1 Hk2 Hm. apply andb_true_iff in Hin as [Hs Hr].
-  destruct k; try congruence; try (exact (round_lit vs x w Hs Hm)).
+  destruct k; try congruence; try (exact (round_lit vs x w Hs Hm));
+    try (cbn [mar_of] in Hm; unfold mar_noop in Hm; inv Hm; reflexivity).
   all: destruct x; try discriminate Hs; try (destruct c; try discriminate Hs);
     cbn [mar_of mar_int mar_float mar_bool mar_tostring mar_noop mar_enum mar_iso mar_pattern mar_none isoformat view truth bind range] in Hm, Hr.
   - inv Hm. reflexivity.
@@ -468,19 +471,57 @@ Qed.
 Lemma run_leaf_enc f x : run_leaf C f (encp x) = lift C (f x).
 Proof. unfold run_leaf. rewrite decp_encp. reflexivity. Qed.
 
-Lemma leaf_m_ok s k p w : kind_of s = Some k -> b_leaf_m C kind_of rts ev s p = Core.Ok w ->
-  exists x y, decp p = Some x /\ mar_of (rts s) ev k x = Ok y /\ w = encp y.
-Proof.
-  unfold b_leaf_m. intros Ek H. rewrite Ek in H.
-  assert (G : run_leaf C (mar_of (rts s) ev k) p = Core.Ok w).
-  { destruct k; try exact H. unfold run_leaf. cbn [mar_of]. destruct (decp p); [exact H|discriminate H]. }
-  exact (run_leaf_ok _ _ _ G).
-Qed.
-Lemma leaf_m_enc s k x : kind_of s = Some k -> b_leaf_m C kind_of rts ev s (encp x) = lift C (mar_of (rts s) ev k x).
-Proof. unfold b_leaf_m. intros Ek. rewrite Ek. destruct k; try apply run_leaf_enc. rewrite decp_encp. reflexivity. Qed.
-
 Lemma on_scalar_inv f p : on_scalar C f p = true -> exists x, decp p = Some x /\ f x = true.
 Proof. unfold on_scalar. destruct (decp p) as [x|] eqn:E; [|discriminate]. intros H. exists x. split; [reflexivity|assumption]. Qed.
+
+Lemma leaf_m_ok s k p w : kind_of s = Some k -> k <> LAny -> b_leaf_m C kind_of rts ev base s p = Core.Ok w ->
+  exists x y, decp p = Some x /\ mar_of (rts s) ev k x = Ok y /\ w = encp y.
+Proof.
+  unfold b_leaf_m. intros Ek Hk H. rewrite Ek in H.
+  assert (G : run_leaf C (mar_of (rts s) ev k) p = Core.Ok w).
+  { destruct k; try exact H; try congruence. unfold run_leaf. cbn [mar_of]. destruct (decp p); [exact H|discriminate H]. }
+  exact (run_leaf_ok _ _ _ G).
+Qed.
+Lemma leaf_u_ok s k p w : kind_of s = Some k -> k <> LAny -> b_leaf_u C kind_of rts base s p = Core.Ok w ->
+  exists x y, decp p = Some x /\ unm_of (rts s) k x = Ok y /\ w = encp y.
+Proof.
+  unfold b_leaf_u. intros Ek Hk H. rewrite Ek in H.
+  assert (G : run_leaf C (unm_of (rts s) k) p = Core.Ok w) by (destruct k; try exact H; congruence).
+  exact (run_leaf_ok _ _ _ G).
+Qed.
+Lemma leaf_m_enc s k x : kind_of s = Some k -> k <> LAny ->
+  b_leaf_m C kind_of rts ev base s (encp x) = lift C (mar_of (rts s) ev k x).
+Proof.
+  unfold b_leaf_m. intros Ek Hk. rewrite Ek. destruct k; try apply run_leaf_enc; try congruence.
+  rewrite decp_encp. reflexivity.
+Qed.
+Lemma leaf_u_enc s k x : kind_of s = Some k -> k <> LAny ->
+  b_leaf_u C kind_of rts base s (encp x) = lift C (unm_of (rts s) k x).
+Proof. unfold b_leaf_u. intros Ek Hk. rewrite Ek. destruct k; try apply run_leaf_enc; congruence. Qed.
+(* the pass-through leaves: every core value, both ways *)
+Lemma any_leaf_u s p : any_leaf kind_of s = true -> Core.leaf_u brt s p = Core.Ok p.
+Proof. unfold any_leaf. cbn [Core.leaf_u bridged]. unfold b_leaf_u. destruct (kind_of s) as [[]|]; try discriminate. reflexivity. Qed.
+Lemma any_leaf_m s p : any_leaf kind_of s = true -> Core.leaf_m brt s p = Core.Ok p.
+Proof. unfold any_leaf. cbn [Core.leaf_m bridged]. unfold b_leaf_m. destruct (kind_of s) as [[]|]; try discriminate. reflexivity. Qed.
+Lemma any_leaf_lv strict s p : any_leaf kind_of s = true -> lv strict s p = true.
+Proof. unfold any_leaf, LeafBridge.lv. destruct (kind_of s) as [[]|]; try discriminate. reflexivity. Qed.
+(* validity at a leaf of the table: a pass-through leaf, or a scalar of the kind *)
+Lemma lv_cases strict s v : lv strict s v = true ->
+  any_leaf kind_of s = true \/
+  exists k x, kind_of s = Some k /\ k <> LAny /\ decp v = Some x /\ in_kind (rts s) ev strict k x = true.
+Proof.
+  unfold LeafBridge.lv, any_leaf. destruct (kind_of s) as [k|] eqn:Ek; [|discriminate]. intros H.
+  destruct k; try (right; destruct (on_scalar_inv _ _ H) as (x & Ea & Hin); eexists _, x; repeat split; [discriminate|exact Ea|exact Hin]).
+  left. reflexivity.
+Qed.
+Lemma lv_inst_cases s v : lv_inst C kind_of rts s v = true ->
+  any_leaf kind_of s = true \/
+  exists k x, kind_of s = Some k /\ k <> LAny /\ decp v = Some x /\ inst (rts s) k x = true.
+Proof.
+  unfold lv_inst, any_leaf. destruct (kind_of s) as [k|] eqn:Ek; [|discriminate]. intros H.
+  destruct k; try (right; destruct (on_scalar_inv _ _ H) as (x & Ea & Hin); eexists _, x; repeat split; [discriminate|exact Ea|exact Hin]).
+  left. reflexivity.
+Qed.
 
 (* ---- NoneLaws ---- *)
 Lemma b_none_pass : Core.none_u brt (Core.none brt) = Core.Ok (Core.none brt).
@@ -502,12 +543,12 @@ Qed.
 Lemma bridged_leaf_round : (forall s, RuntimeLaws (rts s)) -> (forall s, FoldLaws (rts s)) ->
   forall s v w, lv true s v = true -> Core.leaf_m brt s v = Core.Ok w -> Core.leaf_u brt s w = Core.Ok v.
 Proof.
-  intros HL HF s v w Hv Hm. cbn [Core.leaf_m Core.leaf_u bridged] in *. unfold LeafBridge.lv in Hv.
-  unfold b_leaf_u. destruct (kind_of s) as [k|] eqn:Ek; [|discriminate].
-  destruct (on_scalar_inv _ _ Hv) as (x & Ea & Hin).
-  destruct (leaf_m_ok s k _ _ Ek Hm) as (x' & y & Ea' & Hf & ->). rewrite Ea in Ea'. inv Ea'.
-  rewrite run_leaf_enc. rewrite (round_exact (rts s) ev (HL s) k x' y (HF s) Hin Hf). cbn [lift].
-  rewrite (decp_inv _ _ Ea). reflexivity.
+  intros HL HF s v w Hv Hm. destruct (lv_cases _ _ _ Hv) as [Ha|(k & x & Ek & Hk & Ea & Hin)].
+  - rewrite (any_leaf_m s v Ha) in Hm. inv Hm. exact (any_leaf_u s w Ha).
+  - cbn [Core.leaf_m Core.leaf_u bridged] in *.
+    destruct (leaf_m_ok s k _ _ Ek Hk Hm) as (x' & y & Ea' & Hf & ->). rewrite Ea in Ea'. inv Ea'.
+    rewrite (leaf_u_enc s k y Ek Hk). rewrite (round_exact (rts s) ev (HL s) k x' y (HF s) Hin Hf). cbn [lift].
+    rewrite (decp_inv _ _ Ea). reflexivity.
 Qed.
 
 Lemma bridged_none_round v : Core.is_none_val brt v = true -> Core.none_u brt v = Core.Ok v.
@@ -525,47 +566,50 @@ Lemma bridged_leaf_round_sim : (forall s, RuntimeLaws (rts s)) ->
   forall s v w, lv false s v = true -> Core.leaf_m brt s v = Core.Ok w ->
   exists v', Core.leaf_u brt s w = Core.Ok v' /\ sim_pv C v v'.
 Proof.
-  intros HL s v w Hv Hm. cbn [Core.leaf_m Core.leaf_u bridged] in *. unfold LeafBridge.lv in Hv.
-  unfold b_leaf_u. destruct (kind_of s) as [k|] eqn:Ek; [|discriminate].
-  destruct (on_scalar_inv _ _ Hv) as (x & Ea & Hin).
-  destruct (leaf_m_ok s k _ _ Ek Hm) as (x' & y & Ea' & Hf & ->). rewrite Ea in Ea'. inv Ea'.
-  destruct (round_sim (rts s) ev (HL s) k x' y Hin Hf) as (x'' & Hu & Hsim).
-  exists (encp x''). rewrite run_leaf_enc, Hu. split; [reflexivity|].
-  exists x', x''. repeat split; [exact Ea|apply decp_encp|exact Hsim].
+  intros HL s v w Hv Hm. destruct (lv_cases _ _ _ Hv) as [Ha|(k & x & Ek & Hk & Ea & Hin)].
+  - rewrite (any_leaf_m s v Ha) in Hm. inv Hm. exists w. split; [exact (any_leaf_u s w Ha)|left; reflexivity].
+  - cbn [Core.leaf_m Core.leaf_u bridged] in *.
+    destruct (leaf_m_ok s k _ _ Ek Hk Hm) as (x' & y & Ea' & Hf & ->). rewrite Ea in Ea'. inv Ea'.
+    destruct (round_sim (rts s) ev (HL s) k x' y Hin Hf) as (x'' & Hu & Hsim).
+    exists (encp x''). rewrite (leaf_u_enc s k y Ek Hk), Hu. split; [reflexivity|].
+    right. exists x', x''. repeat split; [exact Ea|apply decp_encp|exact Hsim].
 Qed.
 
 (* ---- PassLaws / IdemLaws (C13) ---- *)
-Lemma bridged_lv_pass strict : (forall s, LoadLaws (rts s)) ->
-  forall s v, lv strict s v = true -> Core.leaf_u brt s v = Core.Ok v.
-Proof.
-  intros HLd s v Hv. cbn [Core.leaf_u bridged]. unfold LeafBridge.lv in Hv. unfold b_leaf_u.
-  destruct (kind_of s) as [k|]; [|discriminate].
-  destruct (on_scalar_inv _ _ Hv) as (x & Ea & Hin).
-  unfold in_kind in Hin. apply andb_true_iff in Hin as [Hs _]. apply exact_inst in Hs.
-  unfold run_leaf. rewrite Ea. rewrite (unm_pass (rts s) k x Hs (fun _ => HLd s)). cbn [lift].
-  rewrite (decp_inv _ _ Ea). reflexivity.
-Qed.
-
-(* ... and for every INSTANCE (True under int, a member of a str-mixin enum under str, a value == to a declared one
-   under a Literal) *)
 Lemma bridged_lv_inst_pass : (forall s, LoadLaws (rts s)) ->
   forall s v, lv_inst C kind_of rts s v = true -> Core.leaf_u brt s v = Core.Ok v.
 Proof.
-  intros HLd s v Hv. cbn [Core.leaf_u bridged]. unfold lv_inst in Hv. unfold b_leaf_u.
-  destruct (kind_of s) as [k|]; [|discriminate].
-  destruct (on_scalar_inv _ _ Hv) as (x & Ea & Hs).
-  unfold run_leaf. rewrite Ea. rewrite (unm_pass (rts s) k x Hs (fun _ => HLd s)). cbn [lift].
-  rewrite (decp_inv _ _ Ea). reflexivity.
+  intros HLd s v Hv. destruct (lv_inst_cases _ _ Hv) as [Ha|(k & x & Ek & Hk & Ea & Hs)]; [exact (any_leaf_u s v Ha)|].
+  cbn [Core.leaf_u bridged]. rewrite (decp_inv _ _ Ea), (leaf_u_enc s k x Ek Hk).
+  rewrite (unm_pass (rts s) k x Hs (fun _ => HLd s)). reflexivity.
 Qed.
 
+Lemma bridged_lv_pass strict : (forall s, LoadLaws (rts s)) ->
+  forall s v, lv strict s v = true -> Core.leaf_u brt s v = Core.Ok v.
+Proof.
+  intros HLd s v Hv. destruct (lv_cases _ _ _ Hv) as [Ha|(k & x & Ek & Hk & Ea & Hin)]; [exact (any_leaf_u s v Ha)|].
+  unfold in_kind in Hin. apply andb_true_iff in Hin as [Hs _]. apply exact_inst in Hs.
+  cbn [Core.leaf_u bridged]. rewrite (decp_inv _ _ Ea), (leaf_u_enc s k x Ek Hk).
+  rewrite (unm_pass (rts s) k x Hs (fun _ => HLd s)). reflexivity.
+Qed.
+
+(* a leaf id the table does not know keeps the routine of [base]: idempotence there is the base runtime's business *)
+Definition base_idem : Prop :=
+  forall s x y, kind_of s = None -> Core.leaf_u base s x = Core.Ok y -> Core.leaf_u base s y = Core.Ok y.
+
 Lemma bridged_leaf_idem : (forall s, LoadLaws (rts s)) ->
-  (forall s w m, enum_of_val (rts s) w = Ok m -> is_member (rts s) m = true) ->
+  (forall s w m, enum_of_val (rts s) w = Ok m -> is_member (rts s) m = true) -> base_idem ->
   forall s x y, Core.leaf_u brt s x = Core.Ok y -> Core.leaf_u brt s y = Core.Ok y.
 Proof.
-  intros HLd HE s x y H. cbn [Core.leaf_u bridged] in *. unfold b_leaf_u in *.
-  destruct (kind_of s) as [k|]; [|discriminate].
-  destruct (run_leaf_ok _ _ _ H) as (x0 & y0 & Ea & Hf & ->).
-  rewrite run_leaf_enc. rewrite (unm_pass (rts s) k y0 (unm_inst (rts s) k x0 y0 (HE s) Hf) (fun _ => HLd s)). reflexivity.
+  intros HLd HE HB s x y H. cbn [Core.leaf_u bridged] in *.
+  destruct (kind_of s) as [k|] eqn:Ek.
+  - assert (Dk : k = LAny \/ k <> LAny) by (destruct k; try (right; discriminate); left; reflexivity).
+    destruct Dk as [->|Hk].
+    + unfold b_leaf_u in *. rewrite Ek in *. reflexivity.
+    + destruct (leaf_u_ok s k _ _ Ek Hk H) as (x0 & y0 & Ea & Hf & ->).
+      rewrite (leaf_u_enc s k y0 Ek Hk).
+      rewrite (unm_pass (rts s) k y0 (unm_inst (rts s) k x0 y0 (HE s) Hf) (fun _ => HLd s)). reflexivity.
+  - unfold b_leaf_u in *. rewrite Ek in *. exact (HB s x y Ek H).
 Qed.
 
 Lemma bridged_pass_laws strict : Utf8Total rt0 -> (forall e, Core.suppressed base (exn_map e) = true) ->
@@ -573,8 +617,8 @@ Lemma bridged_pass_laws strict : Utf8Total rt0 -> (forall e, Core.suppressed bas
 Proof. intros Ht Hs HLd. split; [exact (bridged_none_laws Ht Hs)|exact (bridged_lv_pass strict HLd)]. Qed.
 Lemma bridged_idem_laws : Utf8Total rt0 -> (forall e, Core.suppressed base (exn_map e) = true) ->
   (forall s, LoadLaws (rts s)) -> (forall s w m, enum_of_val (rts s) w = Ok m -> is_member (rts s) m = true) ->
-  CoreValid.IdemLaws brt.
-Proof. intros Ht Hs HLd HE. split; [exact (bridged_none_laws Ht Hs)|exact (bridged_leaf_idem HLd HE)]. Qed.
+  base_idem -> CoreValid.IdemLaws brt.
+Proof. intros Ht Hs HLd HE HB. split; [exact (bridged_none_laws Ht Hs)|exact (bridged_leaf_idem HLd HE HB)]. Qed.
 Lemma bridged_pass_laws_inst : Utf8Total rt0 -> (forall e, Core.suppressed base (exn_map e) = true) ->
   (forall s, LoadLaws (rts s)) -> CoreValid.PassLaws brt (lv_inst C kind_of rts).
 Proof. intros Ht Hs HLd. split; [exact (bridged_none_laws Ht Hs)|exact (bridged_lv_inst_pass HLd)]. Qed.
@@ -583,10 +627,14 @@ Proof. intros Ht Hs HLd. split; [exact (bridged_none_laws Ht Hs)|exact (bridged_
 Lemma bridged_leaf_laws : CoreC03.LeafLaws brt (leaf_class_ok C kind_of rts).
 Proof.
   split.
-  - intros s x v H. cbn [Core.leaf_u bridged] in H. unfold b_leaf_u in H. unfold leaf_class_ok.
-    destruct (kind_of s) as [k|]; [|discriminate].
-    destruct (run_leaf_ok _ _ _ H) as (x0 & y0 & Ea & Hf & ->).
-    unfold on_scalar. rewrite decp_encp. exact (unm_shape (rts s) k x0 y0 Hf).
+  - intros s x v H. cbn [Core.leaf_u bridged] in H. unfold leaf_class_ok.
+    destruct (kind_of s) as [k|] eqn:Ek; [|reflexivity].
+    assert (Dk : k = LAny \/ k <> LAny) by (destruct k; try (right; discriminate); left; reflexivity).
+    destruct Dk as [->|Hk]; [reflexivity|].
+    destruct (leaf_u_ok s k _ _ Ek Hk H) as (x0 & y0 & Ea & Hf & ->).
+    assert (G : on_scalar C (cls (rts s) k) (encp y0) = true)
+      by (unfold on_scalar; rewrite decp_encp; exact (unm_shape (rts s) k x0 y0 Hf)).
+    destruct k; try exact G. congruence.
   - intros x v H. cbn [Core.none_u Core.none bridged] in *. unfold b_none_u in H.
     destruct (decp x) as [x0|]; [|discriminate].
     unfold lift in H. destruct (unm_none rt0 x0) as [y| |] eqn:E; try discriminate. inv H.
@@ -608,7 +656,8 @@ Proof.
                             CoreC06.is_wire (prim_atom C) w = true).
   { intros s x w Hr H. cbn [Core.leaf_m bridged] in H. unfold robust_leaf in Hr.
     destruct (kind_of s) as [k|] eqn:Ek; [|discriminate].
-    destruct (leaf_m_ok s k _ _ Ek H) as (x0 & y0 & Ea & Hf & ->).
+    assert (Hk : k <> LAny) by (intros ->; discriminate Hr).
+    destruct (leaf_m_ok s k _ _ Ek Hk H) as (x0 & y0 & Ea & Hf & ->).
     apply is_wire_encp. exact (mar_prim (rts s) ev k x0 y0 Hr Hf). }
   split.
   - exists (enc C VNone). split; [reflexivity|]. unfold prim_atom, on_scalar. change (Core.PAtom (enc C VNone)) with (encp VNone).
@@ -635,14 +684,27 @@ Lemma bridged_leaf_m_inj : (forall s, RuntimeLaws (rts s)) -> (forall s, FoldLaw
   (forall a b, Core.atom_eq base a b = true -> a = b) -> CoreC01.leaf_m_inj brt (lv true).
 Proof.
   intros HL HF Hae s v1 v2 w1 w2 H1 H2 M1 M2 Heq.
-  pose proof (bridged_leaf_round HL HF s v1 w1 H1 M1) as U1.
-  pose proof (bridged_leaf_round HL HF s v2 w2 H2 M2) as U2.
-  cbn [Core.leaf_m bridged] in M1, M2. unfold LeafBridge.lv in H1. destruct (kind_of s) as [k|] eqn:Ek; [|discriminate H1].
-  destruct (leaf_m_ok s k _ _ Ek M1) as (x1 & y1 & D1 & _ & ->).
-  destruct (leaf_m_ok s k _ _ Ek M2) as (x2 & y2 & D2 & _ & ->).
-  rewrite (pyeq_encp y1 y2 Hae Heq) in U1. rewrite U1 in U2. inv U2.
-  rewrite (decp_inv _ _ D2). destruct (encp_shape x2) as [[a E]|[f E]]; rewrite E;
-    cbn [Core.pv_pyeq Core.pv_eqb]; rewrite Nat.eqb_refl; reflexivity.
+  destruct (lv_cases _ _ _ H1) as [Ha|(k & x1 & Ek & Hk & D1 & _)].
+  - rewrite (any_leaf_m s v1 Ha) in M1. rewrite (any_leaf_m s v2 Ha) in M2. inv M1. inv M2. exact Heq.
+  - pose proof (bridged_leaf_round HL HF s v1 w1 H1 M1) as U1.
+    pose proof (bridged_leaf_round HL HF s v2 w2 H2 M2) as U2.
+    cbn [Core.leaf_m bridged] in M1, M2.
+    destruct (leaf_m_ok s k _ _ Ek Hk M1) as (x1' & y1 & _ & _ & ->).
+    destruct (leaf_m_ok s k _ _ Ek Hk M2) as (x2 & y2 & D2 & _ & ->).
+    rewrite (pyeq_encp y1 y2 Hae Heq) in U1. rewrite U1 in U2. inv U2.
+    rewrite (decp_inv _ _ D2). destruct (encp_shape x2) as [[a E]|[f E]]; rewrite E;
+      cbn [Core.pv_pyeq Core.pv_eqb]; rewrite Nat.eqb_refl; reflexivity.
+Qed.
+
+(* C06's wire law does NOT hold at a pass-through leaf (it is outside fully_annotated: robust_leaf is false there):
+   whatever goes in comes out, a set for instance *)
+Lemma any_leaf_not_wire s : any_leaf kind_of s = true ->
+  robust_leaf kind_of s = false /\
+  Core.leaf_m brt s (Core.PSeq Core.KSet []) = Core.Ok (Core.PSeq Core.KSet []) /\
+  CoreC06.is_wire (prim_atom C) (Core.PSeq Core.KSet []) = false.
+Proof.
+  intros Ha. split; [|split; [exact (any_leaf_m s _ Ha)|reflexivity]].
+  unfold any_leaf in Ha. unfold robust_leaf. destruct (kind_of s) as [[]|]; try discriminate Ha. reflexivity.
 Qed.
 
 End Bridged.
@@ -832,7 +894,7 @@ Let CLx : coding_law xC := with_keys_law e d DE.
 
 Lemma ex_lv_enc strict s x : xlv strict s (encp xC x) =
   match ex_kinds s with Some k => in_kind toy_rt ex_ev strict k x | None => false end.
-Proof. unfold lv, on_scalar. rewrite (decp_encp xC CLx). reflexivity. Qed.
+Proof. unfold lv, on_scalar. destruct (ex_kinds s) as [k|]; [|reflexivity]. destruct k; rewrite ?(decp_encp xC CLx); reflexivity. Qed.
 
 Lemma ex_hyps :
   CoreC01.valid xrt (xlv true) no_env 4 ex_T (ex_pv xC Core.KTuple ex_vals) = true /\
@@ -849,7 +911,7 @@ Lemma ex_mar : Core.mar xrt no_env 4 ex_T (ex_pv xC Core.KTuple ex_vals) = Core.
 Proof.
   unfold ex_T, ex_pv, ex_vals, ex_wire.
   cbn [Core.mar Core.itervalues Core.bind Core.mapM Core.zip_trunc map fst snd Core.leaf_m bridged].
-  repeat (erewrite (leaf_m_enc xC ex_kinds (fun _ => toy_rt) ex_ev CLx) by reflexivity). vm_compute. reflexivity.
+  repeat (erewrite (leaf_m_enc xC ex_kinds (fun _ => toy_rt) ex_ev ex_base CLx) by (reflexivity || discriminate)). vm_compute. reflexivity.
 Qed.
 
 Lemma ex_unm : Core.unm xrt no_env 4 ex_T (ex_pv xC Core.KList ex_wire) = Core.Ok (ex_pv xC Core.KTuple ex_vals).
@@ -858,6 +920,26 @@ Proof.
   cbn [Core.unm Core.load Core.is_scalar Core.itervalues Core.bind Core.mapM Core.zip_trunc map fst snd
        Core.leaf_u bridged Core.construct_seq List.length Nat.ltb Nat.leb].
   unfold b_leaf_u. cbn [ex_kinds]. rewrite !(run_leaf_enc xC CLx). vm_compute. reflexivity.
+Qed.
+
+(* a pass-through leaf: tuple[Any, int] with a set (holding a tuple) at the Any position *)
+Lemma ex_any :
+  CoreC01.valid xrt (xlv true) no_env 3 ex_any_T (ex_any_pv xC Core.KTuple) = true /\
+  Core.mar xrt no_env 3 ex_any_T (ex_any_pv xC Core.KTuple) = Core.Ok (ex_any_pv xC Core.KList) /\
+  Core.unm xrt no_env 3 ex_any_T (ex_any_pv xC Core.KList) = Core.Ok (ex_any_pv xC Core.KTuple) /\
+  any_leaf ex_kinds 10 = true /\ robust_leaf ex_kinds 10 = false.
+Proof.
+  split; [|split; [|split; [|split; reflexivity]]].
+  - unfold ex_any_T, ex_any_pv. cbn [CoreC01.valid CoreC01.forallb2 andb]. rewrite ex_lv_enc. reflexivity.
+  - unfold ex_any_T, ex_any_pv.
+    cbn [Core.mar Core.itervalues Core.bind Core.mapM Core.zip_trunc map fst snd Core.leaf_m bridged].
+    repeat (erewrite (leaf_m_enc xC ex_kinds (fun _ => toy_rt) ex_ev ex_base CLx) by (reflexivity || discriminate)).
+    vm_compute. reflexivity.
+  - unfold ex_any_T, ex_any_pv.
+    cbn [Core.unm Core.load Core.is_scalar Core.itervalues Core.bind Core.mapM Core.zip_trunc map fst snd
+         Core.leaf_u bridged List.length Nat.ltb Nat.leb].
+    repeat (erewrite (leaf_u_enc xC ex_kinds (fun _ => toy_rt) ex_base CLx) by (reflexivity || discriminate)).
+    vm_compute. reflexivity.
 Qed.
 
 (* the str "kids" is the field name 0: PKey 0 in the core model, never an atom *)
@@ -874,7 +956,7 @@ Lemma ex_fold_refutes :
   encp xC (VDateTime ex_dt) <> encp xC (VDateTime ex_dt_fold1).
 Proof.
   split; [rewrite ex_lv_enc; vm_compute; reflexivity|].
-  split; [cbn [Core.leaf_m bridged]; erewrite (leaf_m_enc xC ex_kinds (fun _ => toy_rt) ex_ev CLx) by reflexivity; vm_compute; reflexivity|].
+  split; [cbn [Core.leaf_m bridged]; erewrite (leaf_m_enc xC ex_kinds (fun _ => toy_rt) ex_ev ex_base CLx) by (reflexivity || discriminate); vm_compute; reflexivity|].
   split; [cbn [Core.leaf_u bridged]; unfold b_leaf_u; cbn [ex_kinds]; rewrite (run_leaf_enc xC CLx); vm_compute; reflexivity|].
   intros H. apply (encp_inj xC CLx) in H. discriminate H.
 Qed.
@@ -914,4 +996,35 @@ Lemma std_sshape_laws rt : SShapeLaws std_sshape rt.
 Proof.
   split; intros v Ht; destruct v; try reflexivity; try (unfold textual in Ht; cbn [view] in Ht; discriminate Ht);
     cbn [v_ser v_back std_sshape]; rewrite Nnat.Nat2N.id; apply std_dec_enc.
+Qed.
+
+(* uuid_text_not_loadable (a field of Scalars.RuntimeLaws about load on TEXT) is C14_load_plain_text transported, given
+   the interpreter facts about the text of a UUID *)
+Lemma uuid_text_from_serdes T srt rt cp : SLoadLaw T srt rt -> S.RuntimeLaws srt -> STextLaws T srt rt cp ->
+  UuidTextFacts srt rt cp ->
+  forall u c, hashable c = true ->
+    load rt (text rt c (canon_text rt (VUuid u))) = Ok (VText CStr (canon_text rt (VUuid u))).
+Proof.
+  intros HL SL ST UF u c Hc. destruct (UF u) as (He & [e1 H1] & [e2 H2]).
+  rewrite HL. unfold ind_load. rewrite (st_carrier T srt rt cp ST c _ Hc).
+  rewrite (SerdesLemmas.load_plain_text srt SL _ _ e1 e2 He H1 H2).
+  rewrite (st_back T srt rt cp ST). reflexivity.
+Qed.
+(* the runtime whose load is C14's model satisfies ALL of Scalars.RuntimeLaws when the base interpreter does and the
+   text interpreter knows the two facts *)
+Lemma with_load_runtime_laws_from_serdes T srt rt cp : RuntimeLaws rt -> S.RuntimeLaws srt ->
+  STextLaws T srt rt cp -> UuidTextFacts srt rt cp -> RuntimeLaws (with_load rt (ind_load T srt)).
+Proof.
+  intros L SL ST UF.
+  assert (ST' : STextLaws T srt (with_load rt (ind_load T srt)) cp) by (destruct ST; constructor; assumption).
+  pose proof (uuid_text_from_serdes T srt (with_load rt (ind_load T srt)) cp (with_load_law T srt rt) SL ST' UF) as Hu.
+  destruct L. constructor; assumption.
+Qed.
+Lemma std_text_laws srt rt : (forall s, utf8_encode rt s = s) -> (forall p, S.utf8_encode srt p = p) ->
+  STextLaws std_sshape srt rt codes.
+Proof.
+  intros Hu Hs. split.
+  - intros c s Hc. destruct c; try discriminate Hc; cbn [text v_ser std_sshape std_ckind S.carrier]; rewrite ?Hu, ?Hs; reflexivity.
+  - intros s. cbn [v_back std_sshape]. unfold uncodes, codes.
+    rewrite map_map, (map_ext _ (fun a => a) ascii_N_embedding), map_id, string_of_list_ascii_of_string. reflexivity.
 Qed.
